@@ -106,6 +106,14 @@ theorem C08_header_hash_covers_every_field :
     Gen.headerFields.all (fun f => f == "hash" || f == "sealhash" || Gen.headerSealKeys.contains f) = true := by
   decide
 
+/-- Every slot of the seal pre-image and of the header-hash pre-image is filled from the field of the same name (a
+slot filled from another field would leave its own field out of the hash while the coverage tables still look complete),
+and every seal slot of the work-object header has such a source. -/
+theorem C08_seal_slots_filled_from_their_own_fields :
+    Gen.woSealSources.all (fun p => p.1 == p.2) = true ∧ Gen.headerSealSources.all (fun p => p.1 == p.2) = true ∧
+    (Gen.woSealKeys ++ Gen.woSealKeysAfterKawpow).all (fun k => (Gen.woSealSources.map (·.1)).contains k) = true := by
+  decide
+
 /-- The body header's roots are compared with the body by ValidateBody (transactions, outbound ETXs, uncles). -/
 theorem C08_roots_bind_body :
     ["TxHash", "OutboundEtxHash", "UncleHash"].all (fun f => Gen.validateBodyCompares.contains f) = true := by
